@@ -322,7 +322,7 @@ class _Skip(Exception):
 class C08(Machine):
     prop = "C08"
     title = "Bits: mutation sequences, aliases, operands unchanged"
-    runs = (6000, 200000)
+    runs = (12000, 600000)
     components = {"real": ["crysp.bits.Bits (all operators, getitem/setitem, size setter, extension, split)", "crysp.utils.operators rol/ror"],
                   "stub": ["models/bits_ref.py ((value,size) algebra) and the alias-class bookkeeping of the checker"]}
     rule = ("one evaluation = one simulated run: 1-3 clients issue <=25 operations (construct/copy/bind, setitem by int/negative "
